@@ -1,0 +1,52 @@
+//go:build verif
+
+// Contracts for package boltdb (KV store adapter; read by /verif/gocv; comment-only effect with the
+// verif tag off).
+
+package boltdb
+
+// ---------------------------------------------------------------------------
+// C15: a batch runs in exactly one bolt write transaction, which is committed when every operation
+// succeeded and rolled back otherwise; no transaction is left open; success is reported only for
+// a committed transaction
+// ---------------------------------------------------------------------------
+
+// bolt (go.etcd.io/bbolt), assumed. openTx counts the transactions begun and not yet finished,
+// commits the successful commits.
+//@ ghostvar openTx int
+//@ ghostvar commits int
+//@ ghostfield bbolt.Tx.open bool
+//@ assume func bbolt.DB.Begin(db, writable)
+//@   requires db != nil
+//@   modifies openTx
+//@   ensures implies(result1 == nil, result0 != nil && fresh(result0) && result0.open && openTx == old(openTx) + 1) && implies(result1 != nil, openTx == old(openTx))
+//@ assume func bbolt.Tx.Commit(tx)
+//@   requires tx != nil && tx.open
+//@   modifies tx.open, openTx, commits
+//@   ensures !tx.open && openTx == old(openTx) - 1 && commits == old(commits) + ite(result == nil, 1, 0)
+//@ assume func bbolt.Tx.Rollback(tx)
+//@   requires tx != nil && tx.open
+//@   modifies tx.open, openTx
+//@   ensures !tx.open && openTx == old(openTx) - 1
+//@ assume func bbolt.Tx.Bucket(tx, name)
+//@   requires tx != nil && tx.open
+//@   ensures result != nil
+//@ assume func bbolt.Bucket.Get(b, key)
+//@   requires b != nil
+//@ assume func bbolt.Bucket.Put(b, key, value)
+//@   requires b != nil
+//@ assume func bbolt.Bucket.Delete(b, key)
+//@   requires b != nil
+//@ assume func store.MergeOperator.FullMerge(mo, key, existingValue, operands)
+//@   requires mo != nil
+
+//@ func Writer.ExecuteBatch
+//@   props C15
+//@   mode int
+//@   requires w != nil && w.store != nil && w.store.db != nil && w.store.mo != nil && openTx >= 0 && openTx < 1000000 && commits >= 0 && commits < 1000000
+//@   requires implies(typeis(batch, *store.EmulatedBatch), batch.(*store.EmulatedBatch) != nil && batch.(*store.EmulatedBatch).Merger != nil && forall(k, 0, len(batch.(*store.EmulatedBatch).Ops), batch.(*store.EmulatedBatch).Ops[k] != nil))
+//@   modifies openTx, commits, bbolt.Tx.open, bbolt.Bucket.FillPercent
+//@   ensures openTx == old(openTx)
+//@   ensures implies(err == nil, commits == old(commits) + 1) && implies(err != nil, commits == old(commits))
+//@   loop 0: invariant tx != nil && tx.open && bucket != nil && err == nil && openTx == old(openTx) + 1 && commits == old(commits) && w.store != nil && w.store.mo != nil
+//@   loop 1: invariant tx != nil && tx.open && bucket != nil && err == nil && openTx == old(openTx) + 1 && commits == old(commits)
